@@ -359,6 +359,16 @@ def response_part(job, r):
                 if (q.rc == 0) != must:
                     r.viol('response:conf:%s:%s' % (svc, 'own-algorithm-refused' if must else 'other-services-algorithm-delivered'),
                            '%s configuration response MACed with algorithm %d (%s configured: %d, other service: %d): rc=%#x' % (svc, mac_alg, svc, own, foreign, q.rc), 'key=%s' % key.hex())
+            # a PDU without header whose MAC is VALID over the bytes that are there, and one without MAC: both blocking clients refuse
+            for nm, kw in (('no-header-valid-mac', dict(header=False)), ('no-mac', dict(mac=False))):
+                def rep2(req, svc=svc, kw=kw, own=own):
+                    el = S.conf_elem('aggr', 2, max_level=17, max_req=10) if svc == 'aggr' else S.conf_elem('ext', 2, max_req=10, cal_last=1700000000)
+                    return S.wrap_v2(S.AGGR_RESP_V2 if svc == 'aggr' else S.EXT_RESP_V2, [el], key, own, **kw)
+                w.next_reply = rep2
+                q = w.cmd('getconf 0 %s' % svc)
+                r.observe(('conf-structure', svc, nm, q.rc == 0))
+                if q.rc == 0:
+                    r.viol('response:conf:%s:%s-delivered' % (svc, nm), '%s configuration response %s delivered: %s' % (svc, nm, q.get('config')), 'key=%s' % key.hex())
         w.close(r)
 
 
